@@ -678,24 +678,44 @@ func phiNilDecision(b *ssa.BasicBlock, facts string) (takeTrue, known bool) {
 	if !ok || (bo.Op != token.EQL && bo.Op != token.NEQ) {
 		return false, false
 	}
-	var phi *ssa.Phi
-	if p, ok := bo.X.(*ssa.Phi); ok {
-		if k, ok := bo.Y.(*ssa.Const); ok && k.Value == nil {
-			phi = p
-		}
-	} else if p, ok := bo.Y.(*ssa.Phi); ok {
-		if k, ok := bo.X.(*ssa.Const); ok && k.Value == nil {
-			phi = p
-		}
+	var tested ssa.Value
+	if k, ok := bo.Y.(*ssa.Const); ok && k.Value == nil {
+		tested = bo.X
+	} else if k, ok := bo.X.(*ssa.Const); ok && k.Value == nil {
+		tested = bo.Y
 	}
-	if phi == nil {
+	if tested == nil {
 		return false, false
 	}
-	kn, isNil := factLookup(facts, fmt.Sprintf("nil:%p", phi))
-	if !kn {
+	// a named result kept in a cell: the value tested is what the nearest preceding store of this block put there
+	if ld, ok := tested.(*ssa.UnOp); ok && ld.Op == token.MUL {
+		if cell, ok := ld.X.(*ssa.Alloc); ok && ld.Block() == b {
+			var last ssa.Value
+			for _, in := range b.Instrs {
+				if in == ssa.Instruction(ld) {
+					break
+				}
+				if st, ok := in.(*ssa.Store); ok && st.Addr == cell {
+					last = st.Val
+				}
+			}
+			if last != nil {
+				tested = last
+			}
+		}
+	}
+	if phi, ok := tested.(*ssa.Phi); ok {
+		if kn, isNil := factLookup(facts, fmt.Sprintf("nil:%p", phi)); kn {
+			return isNil == (bo.Op == token.EQL), true
+		}
 		return false, false
 	}
-	return isNil == (bo.Op == token.EQL), true
+	if _, isLoad := tested.(*ssa.UnOp); !isLoad {
+		if isNil, known := nilClass(tested); known && tested != bo.X && tested != bo.Y {
+			return isNil == (bo.Op == token.EQL), true
+		}
+	}
+	return false, false
 }
 
 func factDel(facts, key string) string {
